@@ -9,6 +9,7 @@ import (
 	"io"
 	"os"
 
+	"github.com/lni/dragonboat/v4/config"
 	"github.com/lni/dragonboat/v4/internal/fileutil"
 	"github.com/lni/dragonboat/v4/internal/logdb"
 	"github.com/lni/dragonboat/v4/internal/rsm"
@@ -220,5 +221,153 @@ func VHarness_C16_SnapshotCrash() {
 	}
 	// a new snapshot can be taken after the restart
 	vAssert(vSaveAndCommit(s2, clock, 40, smType), "save-after-restart-ok")
+	vReach("done")
+}
+
+// ---------------------------------------------------------------------------
+// C16: "comes back at a state no older than the recorded snapshot" for an
+// on-disk state machine recovering from a received snapshot (node.recover).
+
+// vDiskSM is an on-disk managed state machine whose data is just the index it
+// reflects; Sync makes the current index durable (unless the power is gone).
+type vDiskSM struct {
+	clock   *vCrashClock
+	current uint64
+	durable uint64
+	opened  bool
+}
+
+func (s *vDiskSM) Open() (uint64, error) { s.opened = true; return s.current, nil }
+func (s *vDiskSM) Update(e sm.Entry) (sm.Result, error) {
+	s.current = e.Index
+	return sm.Result{}, nil
+}
+func (s *vDiskSM) BatchedUpdate(es []sm.Entry) ([]sm.Entry, error) {
+	for _, e := range es {
+		s.current = e.Index
+	}
+	return es, nil
+}
+func (s *vDiskSM) Lookup(interface{}) (interface{}, error)           { return nil, nil }
+func (s *vDiskSM) ConcurrentLookup(interface{}) (interface{}, error) { return nil, nil }
+func (s *vDiskSM) NALookup([]byte) ([]byte, error)                   { return nil, nil }
+func (s *vDiskSM) NAConcurrentLookup([]byte) ([]byte, error)         { return nil, nil }
+func (s *vDiskSM) Sync() error {
+	// a durability event of its own: the power may fail right before it
+	_ = s.clock.MaybeError(gvfs.OpSync)
+	if !s.clock.crashed {
+		s.durable = s.current
+	}
+	return nil
+}
+func (s *vDiskSM) GetHash() (uint64, error)      { return s.current, nil }
+func (s *vDiskSM) Prepare() (interface{}, error) { return nil, nil }
+func (s *vDiskSM) Save(rsm.SSMeta, io.Writer, []byte, sm.ISnapshotFileCollection) (bool, error) {
+	return true, nil
+}
+func (s *vDiskSM) Recover(r io.Reader, fs []sm.SnapshotFile) error {
+	b := make([]byte, 8)
+	if _, err := io.ReadFull(r, b); err != nil {
+		return err
+	}
+	s.current = uint64(b[0]) // (indexes of this harness are below 256)
+	return nil
+}
+func (s *vDiskSM) Stream(interface{}, io.Writer) error { return nil }
+func (s *vDiskSM) Offloaded() bool                     { return false }
+func (s *vDiskSM) Loaded()                             {}
+func (s *vDiskSM) Close() error                        { return nil }
+func (s *vDiskSM) DestroyedC() <-chan struct{}         { return nil }
+func (s *vDiskSM) Concurrent() bool                    { return true }
+func (s *vDiskSM) OnDisk() bool                        { return true }
+func (s *vDiskSM) Type() pb.StateMachineType           { return pb.OnDiskStateMachine }
+
+type vRsmNode struct{}
+
+func (vRsmNode) StepReady()                                            {}
+func (vRsmNode) RestoreRemotes(pb.Snapshot) error                      { return nil }
+func (vRsmNode) ApplyUpdate(pb.Entry, sm.Result, bool, bool, bool)     {}
+func (vRsmNode) ApplyConfigChange(pb.ConfigChange, uint64, bool) error { return nil }
+func (vRsmNode) ReplicaID() uint64                                     { return 1 }
+func (vRsmNode) ShardID() uint64                                       { return 1 }
+func (vRsmNode) ShouldStop() <-chan struct{}                           { return nil }
+
+func vNewDiskNode(clock *vCrashClock, ldb *vSSLogDB, fs gvfs.FS, usm *vDiskSM) *node {
+	lr := logdb.NewLogReader(1, 1, ldb)
+	s := newSnapshotter(1, 1, vSSRootFn, ldb, lr, fs)
+	lr.SetCompactor(s) // as nodehost.startShard does
+	if !pb.IsEmptySnapshot(ldb.current) {
+		vAssert(lr.ApplySnapshot(ldb.current) == nil, "logreader-snapshot")
+	}
+	cfg := config.Config{ShardID: 1, ReplicaID: 1, CompactionOverhead: 5}
+	return &node{shardID: 1, replicaID: 1, config: cfg, snapshotter: s, logReader: lr,
+		sm:        rsm.NewStateMachine(usm, s, cfg, vRsmNode{}, fs),
+		sysEvents: newSysEventListener(nil, nil)}
+}
+
+// C16 (on-disk state machines): a follower recovers from a snapshot streamed
+// by the leader through the real node.recover (rsm recover, Sync, Shrink,
+// compaction bookkeeping); power fails before a symbolic durability event (an
+// fsync of the file system or the state machine's own Sync).  After the
+// restart through the real start-up path (processOrphans, OpenOnDiskStateMachine,
+// initial recover) the replica is not older than the snapshot recorded in its
+// log store: either its own data covers the snapshot or the snapshot still
+// carries the data.
+//vcheck: reach=crashed-mid-way,no-crash,restarted-from-own-data,restarted-from-snapshot,done workers=16 forbid="."
+func VHarness_C16_OnDiskRecoverCrash() {
+	mem := gvfs.NewStrictMem()
+	clock := &vCrashClock{mem: mem, crashAt: -1}
+	var fs gvfs.FS = vNameFixFS{gvfs.Wrap(mem, clock)}
+	vAssert(fileutil.MkdirAll(vSSRoot, fs) == nil, "mkdir-root")
+	ldb := &vSSLogDB{clock: clock}
+	usm := &vDiskSM{clock: clock, current: 10, durable: 10}
+	n := vNewDiskNode(clock, ldb, fs, usm)
+	_, err := n.recover(rsm.Task{Recover: true, Initial: true})
+	vAssert(err == nil && usm.opened, "initial-recover-ok")
+	// the streamed snapshot (index 50) arrives: file = session image + data
+	env := server.NewSSEnv(vSSRootFn, 1, 1, 50, 2, server.ReceivingMode, fs)
+	vAssert(env.CreateTempDir() == nil, "recv-tempdir-ok")
+	w, err := rsm.NewSnapshotWriter(env.GetTempFilepath(), pb.NoCompression, fs)
+	vAssert(err == nil, "recv-writer-ok")
+	var img bytes.Buffer
+	vAssert(rsm.NewSessionManager().SaveSessions(&img) == nil, "session-image-ok")
+	img.Write([]byte{50, 0, 0, 0, 0, 0, 0, 0})
+	_, err = w.Write(img.Bytes())
+	vAssert(err == nil && w.Close() == nil, "recv-write-ok")
+	ss := pb.Snapshot{ShardID: 1, Index: 50, Term: 3, OnDiskIndex: 50, Type: pb.OnDiskStateMachine, Filepath: env.GetFilepath(),
+		Membership: pb.Membership{Addresses: map[uint64]string{1: "a1"}}}
+	vAssert(env.SaveSSMetadata(&ss) == nil, "recv-metadata-ok")
+	vAssert(env.FinalizeSnapshot(&ss) == nil, "recv-finalize-ok")
+	vAssert(ldb.SaveSnapshots([]pb.Update{{ShardID: 1, ReplicaID: 1, Snapshot: ss}}) == nil, "recv-record-ok")
+	vAssert(n.logReader.ApplySnapshot(ss) == nil, "logreader-snapshot")
+	vAssert(n.snapshotter.removeFlagFile(50) == nil, "recv-flag-removed")
+	// from here on the power may fail
+	clock.crashAt = clock.syncs + vChoose("crashAtEvent", 17)
+	idx, err := n.recover(rsm.Task{Recover: true, Index: 50})
+	vAssert(err == nil && idx == 50, "recover-ok")
+	vAssert(usm.current == 50, "recovered-data-in-place")
+	if clock.crashed {
+		vReach("crashed-mid-way")
+	} else {
+		vReach("no-crash")
+	}
+	// power failure and restart
+	mem.SetIgnoreSyncs(true)
+	mem.ResetToSyncedState()
+	mem.SetIgnoreSyncs(false)
+	clock.crashAt, clock.crashed = -1, false
+	ldb2 := &vSSLogDB{clock: clock, current: ldb.durable, durable: ldb.durable}
+	usm2 := &vDiskSM{clock: clock, current: usm.durable, durable: usm.durable}
+	n2 := vNewDiskNode(clock, ldb2, fs, usm2)
+	vAssert(n2.snapshotter.processOrphans() == nil, "startup-cleanup-ok")
+	_, err = n2.recover(rsm.Task{Recover: true, Initial: true})
+	vAssert(err == nil, "restart-recover-ok")
+	vAssert(ldb2.durable.Index == 50, "record-was-durable-before-recovery-started")
+	vAssert(usm2.current >= ldb2.durable.Index, "not-older-than-the-recorded-snapshot")
+	if usm.durable >= 50 {
+		vReach("restarted-from-own-data")
+	} else {
+		vReach("restarted-from-snapshot")
+	}
 	vReach("done")
 }
